@@ -163,7 +163,7 @@ def judge(op, hl):
     """property clauses on one implementation line -> list of failing clause names"""
     bad = []
     kind = op[0]
-    if kind in ("D", "F"):
+    if kind in ("D", "F", "S"):
         _, fails, it = op
         n = it.allocs() if kind == "D" else it.flat_allocs()
         first = min([f for f in fails if f < n], default=None)
@@ -248,6 +248,8 @@ def op_line(op):
         return "%s %s %s" % (op[0], ",".join(map(str, op[1])) if op[1] else "-", op[2].text())
     if op[0] == "G":
         return "G %d %s %s" % (int(op[1]), op[2].hex() if op[2] else "-", op[3].text())
+    if op[0] == "S":
+        return "S %s %s" % (",".join(map(str, op[1])) if op[1] else "-", op[2].vstr.hex() if op[2].vstr else "-")
     if op[0] == "R":
         return "R %s %d %s %s %s" % (",".join(map(str, op[1])) if op[1] else "-", int(CHECKED[0]), op[2].hex() if op[2] else "-", op[3].text(), op[4].text())
     if op[0] == "O":
@@ -311,6 +313,9 @@ def run_cjsontree_tie(ctx, out):
                         ops.append(("R", fl, key, it, new))
         for idx in (-1, 0, len(it.kids) - 1, len(it.kids), len(it.kids) + 1):
             ops.append(("A", idx, it))
+    for txt in [b"", b"x", b"$1$salt$hash"] + [bytes(r.randrange(1, 256) for _ in range(r.randrange(1, 40))) for _ in range(20)]:
+        for fl in ((), (0,), (1,), (2,), (0, 1)):
+            ops.append(("S", fl, Item(16, vstr=txt)))
     text = "\n".join(op_line(o) for o in ops) + "\n"
     rc, hout, herr = C.sh([binp], inp=text.encode(), timeout=900)
     hl = hout.splitlines()
